@@ -128,7 +128,7 @@ Variables (p : prog) (r : request) (m : model) (inputs outputs : list (string * 
 Hypothesis Hin : all_vars (r_inputs r) = Some inputs.
 Hypothesis Hout : all_vars (r_outputs r) = Some outputs.
 Hypothesis Hv : validators p r m = true.
-Let p' := with_main p (Some (map snd inputs)) outputs.
+Let p' := with_main p (Some (main_args inputs)) outputs.
 
 Lemma validators_split :
   global_unique (mmain m) = true /\ node_names_unique (mmain m) = true /\ imports_unique m = true /\
